@@ -332,6 +332,15 @@ impl Ctx {
         g.violations.push((f, path));
     }
 
+    /// Record a violation whose replay file already exists (a saved fuzz input).
+    pub fn violation_file(&self, f: Fail, path: String) {
+        let mut g = self.inner.lock().unwrap();
+        if g.violations.iter().any(|(x, _)| x.sig == f.sig) {
+            return;
+        }
+        g.violations.push((f, path));
+    }
+
     /// Merge the summary written by a sibling runner (the tokio twin) into this run's accounting.
     pub fn merge_side(&self, path: &str, prefix: &str) -> Option<i64> {
         let text = std::fs::read_to_string(path).ok()?;
